@@ -4,6 +4,7 @@ import MirProofs.Lemmas.SegmentReal
 import MirProofs.Lemmas.SegmentText
 import MirProofs.Lemmas.SegmentRel
 import MirProofs.Lemmas.EmiSupport
+import MirProofs.Lemmas.IntervalsRound
 /-!
   C16 — segment labelling scores equal their clustering-index definitions.
 
@@ -501,6 +502,27 @@ theorem frames_carry_labelAt {lo : ℚ} {xs : LI Label} (hc : Iv.Chain lo xs) (f
     (hi : i < numSamples (Iv.ivals xs) fs) {l : Label} (h : Iv.labelAt xs ((i : ℚ) * fs) = some l) :
     (frameLabels (Iv.ivals xs) (Iv.labels xs) fs)[i]? = some (some l) :=
   frameLabels_of_labelAt hc fs hi h
+
+/-- **frames_with_gaps.** For ANY sorted, non-overlapping annotation (gaps allowed, `Iv.Chain`) the frame-label
+    sequence is completely described by the half-open denotation: frame `i` carries `labelAt` at its time `i·fs`
+    where that is defined, and otherwise — in a gap, before the first or after the last row — the label of the row
+    that ENDS exactly at that time if there is one (`Iv.endLabel`: the code samples closed spans), else the fill
+    value `None`.  `frames_are_labelAt` is the gap-free case, `frames_carry_labelAt` the first clause. -/
+theorem frames_with_gaps {lo : ℚ} {xs : LI Label} (hc : Iv.Chain lo xs) (fs : ℚ) :
+    frameLabels (Iv.ivals xs) (Iv.labels xs) fs =
+      (List.range (numSamples (Iv.ivals xs) fs)).map fun (i : Nat) =>
+        (Iv.labelAt xs ((i : ℚ) * fs)).or (Iv.endLabel xs ((i : ℚ) * fs)) := by
+  rw [frameLabels_eq_map_labelAtC]
+  apply List.map_congr_left
+  intro i _
+  exact Iv.labelAtC_chain hc _
+
+example : Iv.Chain 0 [((0 : ℚ), (1 : ℚ), ['a']), (2, 3, ['b'])] ∧
+    frameLabels [(0, 1), (2, 3)] [['a'], ['b']] (1/2) =
+      [some ['a'], some ['a'], some ['a'], none, some ['b'], some ['b']] ∧
+    Iv.labelAt [((0 : ℚ), (1 : ℚ), ['a']), (2, 3, ['b'])] 1 = none ∧
+    Iv.endLabel [((0 : ℚ), (1 : ℚ), ['a']), (2, 3, ['b'])] 1 = some ['a'] := by
+  refine ⟨⟨?_, ?_, ?_, ?_, trivial⟩, ?_, ?_, ?_⟩ <;> decide +kernel
 
 example : Iv.Contig 0 [((0 : ℚ), (1 : ℚ), ['a']), (1, 2, ['b'])] ∧
     frameLabels [(0, 1), (1, 2)] [['a'], ['b']] (1/2) = [some ['a'], some ['a'], some ['b'], some ['b']] ∧
